@@ -136,3 +136,19 @@ def _traversals_src():
     from translate import gen_traversals
     from vcheck import core
     return gen_traversals.generate(os.path.join(core.REPO, 'src', 'kyupy', 'circuit.py'))[0]
+
+
+@register('DefRouteSrc')
+def _def_route_src():
+    import os
+    from translate import gen_def_route
+    from vcheck import core
+    return gen_def_route.generate(os.path.join(core.REPO, 'src', 'kyupy', 'def_file.py'))[0]
+
+
+@register('SdfCallbacksSrc')
+def _sdf_callbacks_src():
+    import os
+    from translate import gen_sdf_callbacks
+    from vcheck import core
+    return gen_sdf_callbacks.generate(os.path.join(core.REPO, 'src', 'kyupy', 'sdf.py'))
